@@ -27,10 +27,16 @@ def member_of(e: ast.AST, env: dict[str, str]) -> str | None:
     return None
 
 
-def ev(e: ast.AST, env: dict[str, str], call_models=None):
+def ev(e: ast.AST, env: dict[str, str], call_models=None, _depth=0):
     """True / False / None (unknown)."""
     if isinstance(e, ast.Constant):
         return bool(e.value)
+    if isinstance(e, ast.Name):
+        # a named condition (`is_running_request = state == TrialState.RUNNING`): evaluate its single definition
+        d = env.get("__defs__", {}).get(e.id) if isinstance(env.get("__defs__"), dict) else None
+        if d is not None and _depth < 3 and not isinstance(d, ast.Name):
+            return ev(d, env, call_models, _depth + 1)
+        return None
     if isinstance(e, ast.UnaryOp) and isinstance(e.op, ast.Not):
         v = ev(e.operand, env, call_models)
         return None if v is None else (not v)
@@ -85,6 +91,10 @@ def explore(g: CFG, env: dict[str, str], call_models=None, stop_at=(), return_ed
     """Set of nodes reachable from entry under env.  `call_models`: callables (call, env) ->
     'raise' | True | False | None describing modelled callees.  Exploration does not continue
     past nodes in stop_at (they are included)."""
+    if "__defs__" not in env and getattr(g, "func", None) is not None:
+        from .expr import single_defs
+        env = dict(env)
+        env["__defs__"] = single_defs(g.func)
     seen = {g.entry}
     work = [g.entry]
     stop = set(stop_at)
